@@ -19,6 +19,10 @@ Domain : general Colang 2 programs (vf/co2.py: match/send/actions/start/await/ac
          while the action conflicts are resolved - as the single actionable head, or as winner / loser / co-winner against a rival
          flow that acts on the same event): drawn into the generated programs and the library leg, and enumerated (families
          main-ends and main-faulty-action).
+         And the LENGTH of the cascade of internal events that ONE event triggers: counting loops of main that await / start a child
+         flow each round without any external wait (plain, nested, watched by an activated flow, over a chain of flows), 150-640 rounds =
+         several hundred to several thousand internal events for one event - enumerated (family long-cascade, placed first), drawn as
+         a template case (1 of 150) and injected into main of generated programs (1 of 100); the length is measured and labelled.
 Oracle : structural invariants after EVERY run_to_completion (vf/smh.invariants): I1 no pending internal event, I2 every
          listening flow's live heads are parked on match/WaitForHeads (smh also tolerates MergeHeads; merges_pending() below
          does not: a head merging statement is executed, not waited on, so no live head may be left there), I3 finished/stopped
@@ -36,11 +40,12 @@ PID = "C09"
 LEVEL = "exploration"
 CASE_TIMEOUT = 40
 RULE = (
-    "enumerated (placed first): the main-ends family - the MAIN flow reaches its end: 4 preludes (nothing below main | an activated child | a started child that still waits + a running action | all three) x 6 bodies (main ends at once while it is started | after an event | after two events | out of `match Ev0() or Ev1()` | out of a when/or when | after an awaited child) x 4 ends (runs off its end | `return` | a last `send` | `abort` as control: main fails and is not re-armed) x ALL histories of length <= 3 (quick) / 4 (thorough) over Ev0, Ev1, [\"startmain\"] = StartFlow(flow_id=main) as the runtime sends it at the next turn - fed only while main is WAITING, a state round trip (thorough: + 6 s idle time); non-trivial = main was seen re-armed (status WAITING after it had run); "
+    "enumerated (placed first): the long-cascade family - ONE external event that triggers a long but finite cascade of internal events (every flow start / finish is one): 5 shapes (main counts `while $ci < N` and awaits a small child flow each round without any external wait | starts it | two nested counting loops | the same loop watched by an activated flow `match FlowStarted(flow_id=child)` that every round finishes and restarts | a loop over a chain of 8-20 flows each awaiting / starting the next) x 2 children (assignment | a send: one outgoing event per round) x 2 places (the cascade runs while main is started | after `match Ev0()`) x 2 tails (main then waits for Ev1, starts an action and waits for ever | main ends after a last send: re-armed, and [\"startmain\"] runs the cascade once more) with N cycling through 150, 250, 340, 400, 450, 500, 600 (thorough: every N) and an activated bystander flow waiting for the same Ev0 in every second program, one history (Ev0, Ev1, state round trip, startmain, Ev0, Finished of the action, Ev1); the length of the cascade is MEASURED (internal events processed per run_to_completion, counted by a wrapper of the module) - label internal-events-per-event:<=10|<=100|<=1000|<=3000|>3000 on every case of every leg; non-trivial = some event of the case made the interpreter process more than 1000 internal events; "
+    "the main-ends family - the MAIN flow reaches its end: 4 preludes (nothing below main | an activated child | a started child that still waits + a running action | all three) x 6 bodies (main ends at once while it is started | after an event | after two events | out of `match Ev0() or Ev1()` | out of a when/or when | after an awaited child) x 4 ends (runs off its end | `return` | a last `send` | `abort` as control: main fails and is not re-armed) x ALL histories of length <= 3 (quick) / 4 (thorough) over Ev0, Ev1, [\"startmain\"] = StartFlow(flow_id=main) as the runtime sends it at the next turn - fed only while main is WAITING, a state round trip (thorough: + 6 s idle time); non-trivial = main was seen re-armed (status WAITING after it had run); "
     "the main-faulty-action family - an action statement of MAIN itself whose Start event cannot be generated (6 statements: `start UtteranceBotAction(script=None)`, `start UtteranceBotAction(script=5) as $bad`, `await UtteranceBotAction(script=None)`, `start UtteranceBotAction()`, `start UtteranceBotAction(script=None) and GestureBotAction(..)`, `await UtteranceBotAction(script=None) or GestureBotAction(..)`) x 3 places (first statement of main | right after `match Ev0(..)` | inside a when-case) x 5 rivals (none: main is the single actionable head | a flow started by main that waits for the same Ev0 and then starts a valid action | .. the identical faulty action | .. sends a plain event | .. starts a valid action in an interaction loop of its own) x 3 pattern pairs main/rival (()/(), (v=1)/(), ()/(v=1): equal scores - then also with tie-break [1] -, main or the rival more specific, so main is winner, loser or co-winner of the conflict) x ALL histories of length <= 2 (quick) / 3 (thorough) over Ev0(v=1), Ev1, Ev2, Finished of the first running action, [\"startmain\"] (thorough: + state round trip, idle time) that contain Ev0 (any history for the first-statement place); main has an activated child and a running action; non-trivial = main was seen failed (STOPPED); "
     "the parent-ends-on-shared-event family - a parent flow and its child wait for the SAME event Ev0 (pattern pairs parent/child: ()/(), (v=1)/(), ()/(v=1): equal scores, parent or child more specific), the parent is first in the hierarchy order and, once matched, finishes | returns | aborts | sends and finishes | goes on (control), while the child's next statement after its match is `match A or B` | `match A and B` | when/or when | `send A and B` | `start ActionA and ActionB` | `await ActionA or ActionB` | `await fa or fb` | a plain match | a send | nothing (child ends too) - 5 parent ends x 10 child continuations x 4 relations (parent starts the child; activates it; starts a middle flow that awaits the child; the parent itself is activated by main and restarts) x 3 pattern pairs x ALL histories of length <= 2 (quick) / 3 (thorough) over Ev0(v=1), Ev0(), Ev1, Ev2, Finished of the first running action (thorough: + state round trip) that contain Ev0 at least once; non-trivial = a parent and its child were both indexed for the event that was fed and the parent ended during it; "
-    "the same-event or-group family - 5 constructs that fork heads and merge them again (`match A or B`, `match A or B or A`, `match (A and Ev1) or (B and Ev1)`, `when A or B / or when Ev1`, `await fa or fb` with fa/fb waiting for A/B; each program passes the group twice) x ALL 15 pairs {A, B} of 5 patterns of one event (Ev0(), Ev0(v=1), Ev0(v=regex(\"1\")), Ev0(v=regex(\"[01]\")), Ev0(w=2): one event satisfies both alternatives with equal or with different matching scores, or only one of them) x ALL histories of length <= 2 (quick) / 3 (thorough) over Ev0(v=1,w=2), Ev0(v=1), Ev0(v=0,w=2), Ev1, state round trip x tie-break outcomes [] (first candidate), [1], [0,1] (and [2] with three alternatives); plus four hand-written program families (two flows sharing one co-won action; a state round trip while a flow waits inside an open fork; one match statement reached with references of different action types; an activated flow whose scope end stops an action) x ALL histories of length <= 4 (quick) / 5 (thorough) over 5-6 items incl. idle time; generated, 3 of 4 cases: program from the co2 grammar (1-4 helper flows h_i that only reference h_j, j>i; every while body starts with a wait; main ends in "
-    "`match Never()` unless the main-end dimension says otherwise - see below; in half of the programs waits are rewritten into same-event or-groups: every `match EvA or EvB` with probability 1/2 and every plain `match Ev<k>` with probability 1/2 or 1/4 becomes `match Ev<k>(p1) or Ev<k>(p2) [or Ev<k>(p3)]` with patterns drawn from (), (v=0), (v=1), (v=regex 0), (v=regex 1), (v=regex [01]) - label same-event-or-group; in 2 of 5 programs with >= 2 helpers a helper P is made the parent of a later helper C waiting for the same event: C's first statement becomes `match Ev<e>(pc)` followed by a drawn head fork (or-group, and-group, same-event or-group, when, send group, start group, await-actions group, await-flows group) or by whatever was generated, P gets `start C` / `activate C` + `match Ev<e>(pp)` at a drawn top-level place (before / after its own first wait or later; pp = pc in half of the cases, else patterns of different specificity) and then ends - runs off its end, `return`, `abort` - or goes on, main starts P first thing in 2 of 3 such programs, and Ev<e> is inserted at 1-3 drawn places of the history - labels shared-wait-parent-child, shared-wait-parent:<end>, shared-wait-child-next:<kind>, and, observed at run time for every leg, parent-ended-on-event-its-child-waited-for; the MAIN flow as a dimension: main-end = waits (`match Never()`, 1 of 2) | ends-after-k (main is cut after its first k generated top-level statements, mostly few are cut; k = 0: main ends while it is started) | ends-after-event (`match Ev<e>()` [+ a send] instead of `match Never()`), with Ev<e> at 1-2, [\"startmain\"] at 1-3 and [\"mainhit\"] (an event that main itself waits for at that moment) at 3-10 drawn places of the history - labels main-end:<kind> and, observed, main-ended-and-re-armed, main-started-again; main-fault (1 of 4 programs without the parent/child dimension): one of the 6 faulty action statements at a drawn top-level place of main - anywhere, or right after a wait of its own `match Ev<e>(pm)` and then in 4 of 5 cases with a rival: a helper that main starts just before, whose first wait becomes `match Ev<e>(pr)` (pr = pm or of another specificity) followed by a valid action | the same faulty statement | a plain send - with Ev<e> and [\"mainhit\"] steered into the history - labels main-fault:<statement>, main-fault-place:, main-fault-rival:, and, observed, main-failed) x history of 1-30 items (Ev0..Ev3 with v in {None,0,1}; Started/Finished of the k-th running action) x 0-3 tie-break "
+    "the same-event or-group family - 5 constructs that fork heads and merge them again (`match A or B`, `match A or B or A`, `match (A and Ev1) or (B and Ev1)`, `when A or B / or when Ev1`, `await fa or fb` with fa/fb waiting for A/B; each program passes the group twice) x ALL 15 pairs {A, B} of 5 patterns of one event (Ev0(), Ev0(v=1), Ev0(v=regex(\"1\")), Ev0(v=regex(\"[01]\")), Ev0(w=2): one event satisfies both alternatives with equal or with different matching scores, or only one of them) x ALL histories of length <= 2 (quick) / 3 (thorough) over Ev0(v=1,w=2), Ev0(v=1), Ev0(v=0,w=2), Ev1, state round trip x tie-break outcomes [] (first candidate), [1], [0,1] (and [2] with three alternatives); plus four hand-written program families (two flows sharing one co-won action; a state round trip while a flow waits inside an open fork; one match statement reached with references of different action types; an activated flow whose scope end stops an action) x ALL histories of length <= 4 (quick) / 5 (thorough) over 5-6 items incl. idle time; generated, 1 of 150 cases: the long-cascade template with every dimension drawn (shape, N = one of the seven values + 0..40, child, place, tail, bystander, a history of 1-8 items over Ev0, Ev1, startmain, state round trip, Finished of the first running action); of the others 3 of 4 cases: program from the co2 grammar (1-4 helper flows h_i that only reference h_j, j>i; every while body starts with a wait; main ends in "
+    "`match Never()` unless the main-end dimension says otherwise - see below; in half of the programs waits are rewritten into same-event or-groups: every `match EvA or EvB` with probability 1/2 and every plain `match Ev<k>` with probability 1/2 or 1/4 becomes `match Ev<k>(p1) or Ev<k>(p2) [or Ev<k>(p3)]` with patterns drawn from (), (v=0), (v=1), (v=regex 0), (v=regex 1), (v=regex [01]) - label same-event-or-group; in 2 of 5 programs with >= 2 helpers a helper P is made the parent of a later helper C waiting for the same event: C's first statement becomes `match Ev<e>(pc)` followed by a drawn head fork (or-group, and-group, same-event or-group, when, send group, start group, await-actions group, await-flows group) or by whatever was generated, P gets `start C` / `activate C` + `match Ev<e>(pp)` at a drawn top-level place (before / after its own first wait or later; pp = pc in half of the cases, else patterns of different specificity) and then ends - runs off its end, `return`, `abort` - or goes on, main starts P first thing in 2 of 3 such programs, and Ev<e> is inserted at 1-3 drawn places of the history - labels shared-wait-parent-child, shared-wait-parent:<end>, shared-wait-child-next:<kind>, and, observed at run time for every leg, parent-ended-on-event-its-child-waited-for; the MAIN flow as a dimension: main-end = waits (`match Never()`, 1 of 2) | ends-after-k (main is cut after its first k generated top-level statements, mostly few are cut; k = 0: main ends while it is started) | ends-after-event (`match Ev<e>()` [+ a send] instead of `match Never()`), with Ev<e> at 1-2, [\"startmain\"] at 1-3 and [\"mainhit\"] (an event that main itself waits for at that moment) at 3-10 drawn places of the history - labels main-end:<kind> and, observed, main-ended-and-re-armed, main-started-again; main-fault (1 of 4 programs without the parent/child dimension): one of the 6 faulty action statements at a drawn top-level place of main - anywhere, or right after a wait of its own `match Ev<e>(pm)` and then in 4 of 5 cases with a rival: a helper that main starts just before, whose first wait becomes `match Ev<e>(pr)` (pr = pm or of another specificity) followed by a valid action | the same faulty statement | a plain send - with Ev<e> and [\"mainhit\"] steered into the history - labels main-fault:<statement>, main-fault-place:, main-fault-rival:, and, observed, main-failed; long cascade (1 of 100 programs): one of the 5 cascade shapes with drawn N and child at a drawn top-level place of main, its helper flows added in front of main, [\"mainhit\"] items steered into the history so that main gets there - labels long-cascade-in-generated-main, cascade-shape:<shape>, and the measured internal-events-per-event:<bucket>) x history of 1-30 items (Ev0..Ev3 with v in {None,0,1}; Started/Finished of the k-th running action) x 0-3 tie-break "
     "choices; 1 of 4 cases: the shipped library (core, timing, avatars) under a generated main that activates 0-5 library flows and loops over 1-4 `when <user flow> / <bot flow>` cases, with histories of user utterances (final/interim/started), Ev0 and Started/Finished of running actions (timers, utterances, gestures, CheckFlowDefinedAction) - in 1 of 3 library cases main has no `while True`, i.e. it ends after the first case that fires (label main-end:ends-after-one-round; [\"startmain\"] at 1-4 places and 0-3 times an utterance followed by two action ends are inserted), in 1 of 6 the body of one when-case is a faulty action statement of main (label main-fault:in-when-case); invariants I1-I6 are evaluated after the start and after every event (I2 strictly: match or WaitForHeads only, a live head left on a MergeHeads statement is a violation). Tie-breaks are owned by the case (`choices`, cyclic; label tie-break-not-first-candidate = some consumed choice asked for another than the first candidate). Non-trivial = the program forks heads (group/when) AND "
     "some flow instance with children or actions ended during the history AND the history has >= 10 events; for the same-event family: >= 1 event fed and several heads arrived at one merge statement (a winner was picked); distinct by case (program, history, choices)."
 )
@@ -51,6 +56,7 @@ ASSUMPTIONS = [
     "histories contain explicit `age` items (6 s of idle time on the harness-owned clock), otherwise the clock is frozen",
     "a head merging statement (MergeHeads) is not a waiting statement in the sense of the property: a head that reaches it is merged in the same run_to_completion (winner continues, the others turn inactive) and nothing a later event does could release a head left there, so a live head on MergeHeads after an event counts as 'left on a statement that could still execute'",
     "the label parent-ended-on-event-its-child-waited-for (and the non-trivial rule of the parent/child family) reads the interpreter's own index before the event is fed - coverage bookkeeping only, no verdict depends on it",
+    "the statement puts no bound on the number of internal events one external event may trigger: a finite cascade of any length (here up to about 5000 internal events; counting loops, so termination is by construction) must end in the same quiescent state as a short one. The counter behind the label internal-events-per-event wraps the interpreter's per-internal-event entry (_process_internal_events_without_default_matchers) and only counts - coverage bookkeeping, no verdict depends on it. The cascade's child flows compete with nothing: the activated bystander of the family sends no event (a send on the same event would be an action conflict with the child's send and legitimately fail main)",
     "events of the generated histories carry the parameter v only (None, 0, 1), so generated same-event alternatives are patterns over v; the second parameter w only occurs in the enumerated family",
 ]
 WALL = {"quick": 170, "thorough": 1500}
@@ -319,8 +325,102 @@ def _main_fault(draw, prog, open_end):
     return info
 
 
+# ONE external event that triggers a LONG but finite cascade of internal events (hundreds to thousands: every flow start / finish is
+# an internal event of its own): a counting loop of main that awaits / starts a small child flow each round without any external
+# wait, two nested loops, the same loop watched by an activated flow that every child start finishes and restarts, a loop over a
+# chain of flows each awaiting / starting the next. The statement has no bound on the length of the cascade: after the event the
+# interpreter must be quiescent exactly as after a short one (I1-I6 unchanged). The length is MEASURED (internal events processed
+# per run_to_completion, counted by a wrapper this module owns - _count_internal_events) and reported in the labels.
+CASCADE_SHAPES = ["while-await", "while-start", "nested-while", "watched-by-activated-flow", "loop-over-chain"]
+CASCADE_CHILD = {"assign": "$done = 1", "send": "send CStep()"}  # what the small child flow does (the send: one outgoing event per round)
+CASCADE_N = [150, 250, 340, 400, 450, 500, 600]  # rounds (about 3 internal events per awaited child, 4 per started one, 8 when watched)
+
+
+def cascade_parts(shape, n, child):
+    """-> (helper flows [(name, [parameter], [line, ..])], the statements that go into main); n = number of child flows run in all."""
+    step = ("cstep", ["i"], [CASCADE_CHILD[child]])
+    loop = lambda var, limit, call, ind="": [ind + f"${var} = 0", ind + f"while ${var} < {limit}", ind + f"  {call} ${var}", ind + f"  ${var} = ${var} + 1"]  # noqa: E731
+    if shape == "while-await":
+        return [step], loop("ci", n, "await cstep")
+    if shape == "while-start":
+        return [step], loop("ci", n, "start cstep")
+    if shape == "nested-while":
+        outer = 5 + n % 7
+        inner = loop("cj", max(1, n // outer), "await cstep", "  ")
+        return [step], ["$ci = 0", f"while $ci < {outer}"] + inner + ["  $ci = $ci + 1"]
+    if shape == "watched-by-activated-flow":
+        watch = ("cwatch", [], ['match FlowStarted(flow_id="cstep")', "$seen = 1"])
+        return [watch, step], ["activate cwatch"] + loop("ci", max(1, n // 2), "await cstep")  # (8 internal events per round: half the rounds)
+    if shape == "loop-over-chain":
+        depth = 8 + n % 13  # (deep hierarchies are slow in the interpreter: the chain stays short, the loop makes the cascade long)
+        chain = [(f"cc{k}", [], [("await" if (k + n) % 3 else "start") + f" cc{k + 1}"]) for k in range(depth)] + [(f"cc{depth}", [], [CASCADE_CHILD[child]])]
+        rounds = max(1, n // (depth + 1))
+        return chain, ["$ci = 0", f"while $ci < {rounds}", "  await cc0", "  $ci = $ci + 1"]
+    raise ValueError(shape)
+
+
+CAS_TAIL = {"waits": ["match Ev1()", 'start UtteranceBotAction(script="after")', "match Never()"], "ends": ["send OutZ()"]}
+CAS_ITEMS = [["ev", 0, None], ["ev", 1, None], ["startmain"], ["save"], ["finished", 0]]
+
+
+def cas_program(case):
+    helpers, block = cascade_parts(case["shape"], case["n"], case["child"])
+    # (the bystander: an activated flow that the same event finishes and restarts; it sends nothing - a send would compete with the child's)
+    flows = [("cecho", [], ["match Ev0()", "$seen = 1"])] if case["bystander"] else []
+    main = (["activate cecho"] if case["bystander"] else []) + (["match Ev0()"] if case["place"] == "after-event" else []) + block + CAS_TAIL[case["tail"]]
+    flows += helpers + [("main", [], main)]
+    return "\n".join(f"flow {n}" + "".join(f" ${p}" for p in ps) + "\n" + "".join(f"  {line}\n" for line in body) for n, ps, body in flows)
+
+
+@st.composite
+def _cascade_case(draw):
+    """A small program around one long cascade (the template of the enumerated family long-cascade, every dimension drawn)."""
+    hist = draw(st.lists(st.sampled_from(CAS_ITEMS), min_size=1, max_size=8))
+    return {
+        "leg": "cas",
+        "family": "long-cascade",
+        "shape": draw(st.sampled_from(CASCADE_SHAPES)),
+        "n": draw(st.sampled_from(CASCADE_N)) + draw(st.integers(0, 40)),
+        "child": draw(st.sampled_from(sorted(CASCADE_CHILD))),
+        "place": draw(st.sampled_from(["at-start", "after-event", "after-event"])),
+        "tail": draw(st.sampled_from(sorted(CAS_TAIL))),
+        "bystander": draw(st.booleans()),
+        "hist": [list(x) for x in hist],
+        "choices": [],
+    }
+
+
+def _cascade_cases(tier):
+    """40 (quick) programs: 5 shapes x 2 children x 2 places x 2 tails, the number of rounds and the bystander cycling, one history that
+    runs the cascade (twice when main ends and is started again) with a state round trip behind it; thorough: every number of rounds."""
+    i = 0
+    for shape in CASCADE_SHAPES:
+        for child in sorted(CASCADE_CHILD):
+            for place in ("after-event", "at-start"):
+                for tail in sorted(CAS_TAIL):
+                    for n in [CASCADE_N[(2 + i) % len(CASCADE_N)]] if tier == "quick" else CASCADE_N:
+                        hist = [["ev", 0, None], ["ev", 1, None], ["save"], ["startmain"], ["ev", 0, None], ["finished", 0], ["ev", 1, None]]
+                        yield {"leg": "cas", "family": "long-cascade", "shape": shape, "n": n, "child": child, "place": place, "tail": tail, "bystander": i % 2 == 1, "hist": hist, "choices": []}
+                    i += 1
+
+
+def _cascade_inject(draw, prog, open_end):
+    """One more dimension of a generated program: one long cascade (drawn shape, rounds, child) at a drawn top-level place of main; its
+    helper flows are put in front of main (the generated helpers never refer to them)."""
+    shape, child = draw(st.sampled_from(CASCADE_SHAPES)), draw(st.sampled_from(sorted(CASCADE_CHILD)))
+    n = draw(st.sampled_from(CASCADE_N)) + draw(st.integers(0, 40))
+    helpers, block = cascade_parts(shape, n, child)
+    main = prog["flows"][-1]["body"]
+    k = draw(st.integers(2, len(main) if open_end else len(main) - 1))  # never behind `match Never()`
+    main[k:k] = [{"k": "raw", "cascade": shape, "text": line} for line in block]
+    prog["flows"][-1:-1] = [{"name": name, "params": ps, "loop": None, "body": [{"k": "raw", "text": line} for line in body]} for name, ps, body in helpers]
+    return {"shape": shape, "n": n, "child": child}
+
+
 @st.composite
 def _case(draw):
+    if draw(st.integers(0, 149)) == 77:  # (not 0: Hypothesis favours the boundaries of an integer range)
+        return draw(_cascade_case())
     if draw(st.integers(0, 3)) == 0:
         return draw(_lib_case_main())
     prog = draw(co2.programs(profile={"recursion": True}))
@@ -335,12 +435,14 @@ def _case(draw):
     shared = _share_wait(draw, prog) if draw(st.integers(0, 4)) < 2 else None
     # one more dimension: a faulty action statement in main itself (1 of 4 of the remaining programs)
     main_fault = _main_fault(draw, prog, bool(main_end)) if shared is None and draw(st.integers(0, 3)) == 0 else None
+    # one more dimension: one long cascade of internal events in main (1 of 100 programs; put in last: the helpers above are addressed by index)
+    cascade = _cascade_inject(draw, prog, bool(main_end)) if draw(st.integers(0, 99)) == 57 else None  # (not 0, see above)
     hist = draw(co2.histories(30))
     if shared:
         # steer the history: the shared event is fed at 1-3 drawn places (mostly with v=1, which most of the drawn patterns accept)
         for _ in range(draw(st.integers(1, 3))):
             hist.insert(draw(st.integers(0, min(len(hist), 12))), ["ev", shared["ev"], draw(st.sampled_from([1, 1, None, 0]))])
-    if main_end or main_fault:
+    if main_end or main_fault or cascade:
         # .. main is helped on its way to its end / its faulty statement: 3-10 times an event that main itself waits for at that time
         for _ in range(draw(st.integers(3, 10))):
             hist.insert(draw(st.integers(0, len(hist))), ["mainhit", draw(st.integers(0, 2)), draw(st.sampled_from([None, None, None, 1, 0]))])
@@ -366,6 +468,8 @@ def _case(draw):
         case["main_end"] = main_end
     if main_fault:
         case["main_fault"] = main_fault
+    if cascade:
+        case["cascade"] = cascade
     return case
 
 
@@ -697,6 +801,7 @@ def _main_fault_cases(tier):
 
 
 def enumerate_cases(tier):
+    yield from _cascade_cases(tier)
     yield from _main_ends_cases(tier)
     yield from _main_fault_cases(tier)
     yield from _parent_child_cases(tier)
@@ -871,6 +976,25 @@ def invariants(state):
     return smh.invariants(state) + merges_pending(state)
 
 
+_counter = {"n": 0}
+
+
+def _count_internal_events():
+    """Counts the internal events the interpreter processes (one call of _process_internal_events_without_default_matchers per event
+    taken from the queue): measurement for the labels only, the wrapper changes nothing. Installed once per process."""
+    s = smh.sm()
+    if getattr(s._process_internal_events_without_default_matchers, "_c09_counted", False):
+        return
+    orig = s._process_internal_events_without_default_matchers
+
+    def counted(*a, **k):
+        _counter["n"] += 1
+        return orig(*a, **k)
+
+    counted._c09_counted = True
+    s._process_internal_events_without_default_matchers = counted
+
+
 def _main_status(state):
     return state.main_flow_state.status.value if state.main_flow_state is not None else None
 
@@ -907,6 +1031,12 @@ def prop(case):
         text = mf_program(case)
         kinds = Counter({"awaitga": int("group" in case["fault"]), "when": int(case["place"] == "in-when-case"), "activate": 1, "startact": 1})
         mk = lambda: Session(text, case["choices"])  # noqa: E731
+    elif case.get("leg") == "cas":
+        from collections import Counter
+
+        text = cas_program(case)
+        kinds = Counter({"while": 1, "activate": int(case["bystander"] or case["shape"] == "watched-by-activated-flow"), "startact": int(case["tail"] == "waits")})
+        mk = lambda: Session(text, case["choices"])  # noqa: E731
     elif case.get("leg") == "text":
         from collections import Counter
 
@@ -918,6 +1048,8 @@ def prop(case):
         kinds = co2.count_kinds(case["prog"])
         kinds["matchg"] += sum(1 for fl in case["prog"]["flows"] for x in _walk(fl["body"]) if x.get("sameev"))
         mk = lambda: Session(text, case["choices"])  # noqa: E731
+    _count_internal_events()
+    _counter["n"] = 0
     try:
         s = mk()
     except Exception as e:
@@ -929,8 +1061,10 @@ def prop(case):
     parent_ended_below = False
     seen_done = set()
     fed = 0
+    longest = _counter["n"]  # internal events processed for one run_to_completion (measured; labels only)
     main_status = {_main_status(s.state)}  # coverage bookkeeping only: was main seen re-armed (waiting) / failed (stopped)
     for i, item in enumerate(case["hist"]):
+        _counter["n"] = 0
         try:
             out = s.feed(item)
         except Exception as e:
@@ -938,6 +1072,7 @@ def prop(case):
         if out is None:
             continue
         fed += 1
+        longest = max(longest, _counter["n"])
         bad = invariants(s.state)
         if bad:
             raise Violation(bad[0][0], f"after event #{i} {item} of {case['hist'][: i + 1]}: {bad[0][1]}\n{text}")
@@ -997,6 +1132,12 @@ def prop(case):
         labels.append("main-started-again")
     if "stopped" in main_status:
         labels.append("main-failed")
+    # one event that triggers a long cascade of internal events: the dimension (enumerated / drawn) and what was measured
+    if case.get("leg") == "cas":
+        labels += ["family:" + case["family"], "cascade-shape:" + case["shape"], "cascade-child:" + case["child"], "cascade-place:" + case["place"], "cascade-tail:" + case["tail"]]
+    elif case.get("cascade"):
+        labels += ["long-cascade-in-generated-main", "cascade-shape:" + case["cascade"]["shape"]]
+    labels.append("internal-events-per-event:" + ("<=10" if longest <= 10 else "<=100" if longest <= 100 else "<=1000" if longest <= 1000 else "<=3000" if longest <= 3000 else ">3000"))
     if case.get("leg") == "text":
         labels.append("family:" + case["family"])
     elif case.get("leg") == "lib":
@@ -1017,6 +1158,8 @@ def prop(case):
         nt = fed >= 1 and smh.CHOOSER.used > 0  # several heads arrived at one merge statement and a winner had to be picked
     if case.get("leg") == "me":
         nt = "waiting" in main_status  # main reached its end and was re-armed
+    if case.get("leg") == "cas":
+        nt = longest > 1000  # one event did trigger a long cascade
     if case.get("leg") == "mf":
         nt = "stopped" in main_status  # main got to its faulty statement (or lost the conflict there) and failed
     return ok(nt=nt, labels=labels, view=view, counters={"events_fed": fed})
